@@ -139,6 +139,10 @@ def run(ctx):
                                 "list iterator (Cons continues, Null ends, anything else is a dotted tail)")
     n = tailmap.check(rt, lexpr, which=("cons", "datum"))
     rt.floor("cdr-kinds", n)
+    from .. import cloneid
+    rc = ctx.rule("R-CLONE-ID", "the hand-written, iterative SpanInfo::clone gives back the chain, terminator kinds and "
+                                "spans it was given (an owned copy of a datum walks like the original)")
+    cloneid.check_spaninfo(rc, lexpr, ctx.tier == "thorough")
 
 
 def token_map(ctx, lexpr):
